@@ -180,6 +180,27 @@ impl Prop for C13 {
     fn check(&self, c: &Case, st: &mut Stats) -> Result<(), Failure> {
         let params = ParamSpec::plain(c.method).build();
         let lat = c.site.lat.0;
+        // history independence: first a sibling history on the same thread - a neighbouring site whose offset (or
+        // longitude) differs by a few seconds of clock time, over dates that overlap the case's only partly
+        {
+            let h = crate::engine::mix(&[c.site.lat.0.to_bits(), c.site.lon.0.to_bits(), c.start.num_days_from_ce() as u64]);
+            let mut s2 = c.site;
+            let dg = [0.0006, 0.002, 0.004, 0.012][(h % 4) as usize];
+            match (h / 4) % 3 {
+                0 => s2.gmt = F(if c.site.gmt.0 <= 0.0 { c.site.gmt.0 + dg } else { c.site.gmt.0 - dg }),
+                1 => s2.lon = F(if c.site.lon.0 <= 0.0 { c.site.lon.0 + 0.03 } else { c.site.lon.0 - 0.03 }),
+                _ => {
+                    s2.gmt = F(if c.site.gmt.0 <= 0.0 { c.site.gmt.0 + dg } else { c.site.gmt.0 - dg });
+                    s2.lon = F(if c.site.lon.0 <= 0.0 { c.site.lon.0 + dg * 15.0 } else { c.site.lon.0 - dg * 15.0 });
+                }
+            }
+            let back = 1 + ((h / 12) % 3) as i64;
+            let mut d = gen::clamp_date(c.start - chrono::Duration::days(back));
+            for _ in 0..3 {
+                std::hint::black_box(day_values(&s2, &params, d));
+                d = gen::clamp_date(d + chrono::Duration::days(1));
+            }
+        }
         let mut days: Vec<(NaiveDate, [Option<i64>; 6])> = Vec::with_capacity(c.len as usize);
         let mut d = c.start;
         for _ in 0..c.len {
